@@ -53,7 +53,13 @@ func verifDo(req *http.Request) (*http.Response, error) {
 		i := vIndex(one.Query)
 		verifAssert(i >= 0 && vCalls[i] == nil, "a request is sent in one HTTP call only")
 		vCalls[i] = []string{one.Query}
+		vSentMultipart[i] = true
 		vUploadCalls++
+		if vUpAnswer != 0 && !vUpFailed {
+			// the service answers the first multipart call with nothing (or blanks): a failed call
+			vUpFailed = true
+			return &http.Response{StatusCode: 200, Body: &vBody{[]byte([]string{"", "", " \n"}[vUpAnswer])}}, nil
+		}
 		b, _ := json.Marshal(map[string]interface{}{"data": map[string]interface{}{"tag": one.Query}})
 		return &http.Response{StatusCode: 200, Body: &vBody{b}}, nil
 	}
@@ -71,15 +77,36 @@ func verifDo(req *http.Request) (*http.Response, error) {
 	}
 	first := vIndex(tags[0])
 	verifAssert(vCalls[first] == nil, "a request is sent in one HTTP call only")
+	for _, t := range tags {
+		if ti := vIndex(t); ti >= 0 {
+			verifAssert(!vSentMultipart[ti], "a request that travelled as multipart/form-data is not sent again in a batch")
+		}
+	}
 	vCalls[first] = tags
 	status := 200
 	if !vNoFail && verifBool("failcall_"+vTags[first]) {
 		vFailedAt[first] = true
-		if !vFailByStatus {
+		switch vFailKind {
+		case 0:
 			return nil, errors.New("transport error")
+		case 1:
+			// the call fails with a non-2xx status although its body is a well-formed answer
+			status = 502
+		default:
+			// the service answers its first request with GraphQL errors: with a message (2), or with
+			// nothing but extensions (3: the message member is missing)
+			out := make([]map[string]interface{}, len(ins))
+			for i, r := range ins {
+				out[i] = map[string]interface{}{"data": map[string]interface{}{"tag": r.Query}}
+			}
+			e := map[string]interface{}{"extensions": map[string]interface{}{"code": "INTERNAL"}}
+			if vFailKind == 2 {
+				e["message"] = "boom"
+			}
+			out[0] = map[string]interface{}{"data": nil, "errors": []interface{}{e}}
+			b, _ := json.Marshal(out)
+			return &http.Response{StatusCode: 200, Body: &vBody{b}}, nil
 		}
-		// the call fails with a non-2xx status although its body is a well-formed answer
-		status = 502
 	}
 	out := make([]map[string]interface{}, len(ins))
 	emptyErrs := vEmptyErrs
@@ -95,7 +122,10 @@ func verifDo(req *http.Request) (*http.Response, error) {
 
 var vEmptyErrs bool
 var vNoFail bool // the transport is healthy from here on
-var vFailByStatus bool // failing calls answer 502 with a well-formed body instead of a transport error
+var vFailKind int // how a failing call fails: transport error, 502 with a well-formed body, GraphQL errors with / without a message
+var vSentMultipart = make([]bool, len(vTags))
+var vUpAnswer int  // 0: multipart calls are answered normally; 1, 2: the first one is answered with an empty / blank body
+var vUpFailed bool
 
 // verifNewCancel backs context.WithCancel (engine model): a done channel and its cancel function
 func verifNewCancel() (chan struct{}, func()) {
@@ -114,7 +144,7 @@ func verifNewCancel() (chan struct{}, func()) {
 
 func VerifQuery() {
 	vEmptyErrs = verifBool("emptyerrors") // every healthy answer of this run carries "errors": [] or none does
-	vFailByStatus = verifBool("failbystatus")
+	vFailKind = verifChoice("failkind", 4)
 	N := verifChoice("N", verifParam("nmax", 3)+1)
 	m := verifInt("m", 1, verifParam("mmax", 2))
 	q := &MultiOpQueryer{url: "u", client: &http.Client{Transport: vNativeTransport{verifDo}}, maxBatchSize: m}
@@ -191,7 +221,16 @@ func VerifMixedUploads() {
 			inputs[i].Variables = map[string]interface{}{"f": &requests.Upload{File: &vBody{[]byte("bytes of " + vTags[i])}, FileName: "f" + verifItoa(i)}}
 		}
 	}
+	if nup > 0 {
+		vUpAnswer = verifChoice("upanswer", 3)
+	}
 	res, err := q.Query(inputs)
+	if vUpFailed {
+		verifAssert(err != nil, "a multipart call answered with nothing is reported as an error")
+		verifAssert(res == nil, "no partial results next to an error")
+		verifReach("upload answered with nothing")
+		return
+	}
 	verifAssert(err == nil, "no error when no call failed")
 	verifAssert(len(res) == N, "exactly N results")
 	verifAssert(vUploadCalls == nup, "every request with files is sent in a call of its own")
